@@ -71,7 +71,7 @@ TECHNIQUE = ("runtime monitoring of points_in_poly / PolygonFilter with an exact
 WATCHDOG_S = {"quick": 300, "thorough": 3000}
 
 # case id = [kind code, index]
-K_GRID3, K_GRID4, K_GRIDRAND, K_FLOAT, K_FILE, K_ASAN = 0, 1, 2, 3, 4, 9
+K_GRID3, K_GRID4, K_GRIDRAND, K_FLOAT, K_FILE, K_DS, K_ASAN = 0, 1, 2, 3, 4, 5, 9
 KIND_NAME = {0: "grid3", 1: "grid4", 2: "gridrand", 3: "float", 4: "file", 9: "asan"}
 GRID_BATCH = {K_GRID3: 256, K_GRID4: 512}
 GRIDRAND_POLYS = 48
@@ -83,8 +83,9 @@ def _counts(tier):
     n3 = -(-grid_total(3) // GRID_BATCH[K_GRID3])
     n4 = -(-grid_total(4) // GRID_BATCH[K_GRID4])
     if tier == "quick":
-        return {K_GRID3: n3, K_GRIDRAND: 640, K_FLOAT: 16000, K_FILE: 1600}
-    return {K_GRID3: n3, K_GRID4: n4, K_GRIDRAND: 8000, K_FLOAT: 240000, K_FILE: 24000}
+        return {K_GRID3: n3, K_GRIDRAND: 640, K_FLOAT: 16000, K_FILE: 1600, K_DS: 320}
+    return {K_GRID3: n3, K_GRID4: n4, K_GRIDRAND: 8000, K_FLOAT: 240000, K_FILE: 24000,
+            K_DS: 4800}
 
 
 def plan(tier, seed):
@@ -93,7 +94,7 @@ def plan(tier, seed):
     shards = [{"kind": "mix", "cases": []} for _ in range(k)]
     pos = 0
     # heavy kinds first so that every shard gets the same share of each kind
-    for code in (K_GRID4, K_FLOAT, K_FILE, K_GRID3, K_GRIDRAND):
+    for code in (K_GRID4, K_FLOAT, K_FILE, K_DS, K_GRID3, K_GRIDRAND):
         for i in range(counts.get(code, 0)):
             shards[pos % k]["cases"].append([code, i])
             pos += 1
@@ -110,7 +111,7 @@ def min_evals(tier):
                 "point_in_poly_exact": 50_000, "filter_inversion": 200_000,
                 "roundtrip_attrs": 1500, "roundtrip_ids": 1500, "roundtrip_points": 1500,
                 "roundtrip_classification": 50_000, "import_unique_ids": 100,
-                "registry_invariant": 50_000}
+                "registry_invariant": 50_000, "dataset_filter_exact": 10_000}
     return {"filter_exact": 80_000_000, "pip_exact": 80_000_000, "oracle_selfcheck": 80_000_000,
             "inversion_complement": 80_000_000, "invariance_shift": 80_000_000,
             "invariance_reversal": 80_000_000, "invariance_closing": 80_000_000,
@@ -892,6 +893,76 @@ def run_file(ctx, i):
 
 
 # ------------------------------------------------------------------- sanitizer adjunct
+def run_dataset(ctx, i):
+    """The same guarantees through the dataset entry point: a polygon filter attached to a
+    dataset, applied repeatedly while it is inverted / restored / moved and while other filter
+    settings change; `ds.filter.polygon` is compared with the exact oracle after every apply."""
+    import dclab
+    from dclab.polygon_filter import PolygonFilter
+    from vmon.gen.c15_polys import file_case
+    from vmon.model.c15_evenodd import classify_float, batch_halfopen
+    rng = ctx.rng([K_DS, i])
+    filters, _how = file_case(rng, _features())
+    f = filters[0]
+    q = _query_points(f, rng)
+    n = len(q)
+    PolygonFilter.clear_all_filters()
+    if f["axes"][0] == f["axes"][1]:
+        return
+    other = [u for u in ("userdef9", "userdef8", "userdef7") if u not in f["axes"]][0]
+    ds = dclab.new_dataset({f["axes"][0]: q[:, 0].copy(), f["axes"][1]: q[:, 1].copy(),
+                            other: rng.normal(size=n)})
+    pf = PolygonFilter(axes=f["axes"], points=f["points"], inverted=f["inverted"])
+    ds.polygon_filter_add(pf)
+    hist = []
+    try:
+        for step in range(int(rng.integers(3, 9))):
+            r = rng.random()
+            if step and r < 0.45:
+                pf.inverted = not pf.inverted
+                hist.append(["invert", bool(pf.inverted)])
+            elif step and r < 0.6:
+                lo, hi = sorted(rng.normal(size=2))
+                ds.config["filtering"][other + " min"] = float(lo)
+                ds.config["filtering"][other + " max"] = float(hi)
+                hist.append(["range on another feature"])
+            elif step and r < 0.7:
+                pf.points = np.roll(pf.points, 1, axis=0)       # same polygon, shifted start
+                hist.append(["cyclic shift of the vertices"])
+            else:
+                hist.append(["apply"])
+            ds.apply_filter()
+            got = np.array(ds.filter.polygon, dtype=bool)
+            p0 = np.asarray(f["points"], dtype=float)
+            if f["ptype"] == "grid":
+                ins, onb, _rt = batch_halfopen((2 * p0).astype(np.int64)[None],
+                                               np.rint(2 * q).astype(np.int64))
+                ins, mask = ins[0], ~onb[0]
+            else:
+                cl = classify_float(p0, q, euclid_band=True)
+                ins = np.array(cl["inside"], bool)
+                mask = ~(np.array(cl["near_e"], bool) | np.array(cl["near"], bool)
+                         | np.array(cl["onb"], bool))
+            exp = ins ^ bool(pf.inverted)
+            ctx.ev("dataset_filter_exact", int(mask.sum()))
+            bad = (got != exp) & mask
+            if bad.any():
+                cols = np.nonzero(bad)[0][:5]
+                ctx.violation("dataset_filter_exact",
+                              {"history": hist[-8:], "inverted_now": bool(pf.inverted),
+                               "axes": list(f["axes"]), "verts": p0, "points": [q[c].tolist() for c in cols],
+                               "expected": [bool(exp[c]) for c in cols],
+                               "got": [bool(got[c]) for c in cols]},
+                              message="ds.filter.polygon differs from exact even-odd containment "
+                                      f"(inverted={pf.inverted}) after {hist[-3:]}")
+                break
+        ctx.count("dataset_histories")
+        if any(h[0] == "invert" for h in hist):
+            ctx.mark_nontrivial("d%015x" % i)
+    finally:
+        PolygonFilter.clear_all_filters()
+
+
 def run_asan(ctx, spec):
     """DESIGN 2.8: re-run a slice of the workload on ASan+UBSan builds of the shipped .c
     files.  Anything that prevents the run is reported as 'not run', never as a violation."""
@@ -1019,4 +1090,6 @@ def run(spec, ctx):
             run_float(ctx, i)
         elif code == K_FILE:
             run_file(ctx, i)
+        elif code == K_DS:
+            run_dataset(ctx, i)
     _St.ctx = None
